@@ -110,7 +110,9 @@ func cmdReplayCosOpt(args []string) error {
 			check("GetCosmeticOption", optionSet(rules.NewMatchingResult(rs, nil).GetCosmeticOption()), "")
 			want = exp
 			// through the engine: the option drives which selectors the cosmetic engine returns
-			list := "##.generic\nh.test##.specific\n" + text + "\n"
+			// (a generic rule, a rule for the host, and - for a second host, under a real public suffix - a rule for the
+			// host and one for the name under any public suffix: "specific" selectors, which only the css option governs)
+			list := "##.generic\nh.test##.specific\nh.com##.specific\nh.*##.wild\n" + text + "\n"
 			if c.Kind == "exception" && len(mods) >= 2 && order == 1 {
 				// a $badfilter rule naming only ONE of the exception's modifiers is not its twin: it disables nothing
 				// ("document" stands for five modifiers and may well be the twin of "document,content": not used)
@@ -156,6 +158,25 @@ func cmdReplayCosOpt(args []string) error {
 				if o == "gcss" && hasCSS {
 					wantDec = append(wantDec, "gcss")
 				}
+			}
+			// the second host: the option bits mean the same for every page they are applied to
+			cr2 := e.GetCosmeticResult("h.com", opt)
+			sp2 := append([]string{}, cr2.ElementHiding.Specific...)
+			sort.Strings(sp2)
+			wantSp2, wantGen2 := "", ""
+			for _, o := range wantDec {
+				if o == "css" {
+					wantSp2 = ".specific,.wild"
+				}
+				if o == "gcss" {
+					wantGen2 = ".generic"
+				}
+			}
+			evals++
+			if strings.Join(sp2, ",") != wantSp2 || strings.Join(cr2.ElementHiding.Generic, ",") != wantGen2 {
+				mism++
+				out.write(map[string]any{"entry": "Engine.GetCosmeticResult(h.com)", "rule": text, "expected": []string{wantSp2, wantGen2},
+					"got": []string{strings.Join(sp2, ","), strings.Join(cr2.ElementHiding.Generic, ",")}, "detail": fmt.Sprintf("%+v", cr2.ElementHiding), "case": c})
 			}
 			evals++
 			if strings.Join(dec, ",") != strings.Join(wantDec, ",") {
